@@ -11,6 +11,7 @@ import (
 	"io"
 	"math/rand"
 	"net/http"
+	goruntime "runtime"
 	"strconv"
 	"strings"
 
@@ -28,8 +29,10 @@ func init() {
 			"(method POST, or GET/HEAD/DELETE/OPTIONS/PUT/PATCH/TRACE, lower- or mixed-case, or empty; TransferEncoding nil or [chunked] when no length is declared: the expected answer depends on neither) x " +
 			"(operation sequence of 1..12 ops over HasBody, Read(n) n in {0,1,7,4096,10000}, Close, and W = drain with io.Copy into a plain io.Writer (uses the body's WriteTo if it has one)), followed by a fixed tail: drain to the terminal condition, Close, one read after close, second Close. " +
 			"Every operation is executed on the real request and on a byte-queue model written from the statement; each result is compared as it happens; after every HasBody, Read and copy made while the body is open the underlying stream must not have been closed (a close before the caller's Close is not 'closing the body'). " +
+			"HISTORIES over several requests: one draw in 12 is a history (a batch counts requests): 0..3 earlier requests each run to its end (ops, drain, Close) before the next begins - half of them with no length declared on a stream that yields nothing (empty, or failing before the first byte), the others as any single case -, then 2..3 requests (three in four with no length declared on a non-empty stream) whose steps (each operation, then the fixed tail as one step) are interleaved at random on one goroutine; one history in four interleaves all of its requests. Every request has its own stream and is judged against its own byte-queue model exactly as a single case is; a finding the request also raises when run alone is reported as a single-request finding, the others carry /requests-overlapping (another request of the history was under way during the life of the request) or /requests-in-sequence; bytes that are a stretch of another request's body are named read-/copy-bytes-of-another-request. " +
 			"non-trivial = no length declared (the peeking path is taken), non-empty scripted stream, and the sequence has >=1 HasBody followed by >=1 Read(n>0); " +
-			"distinct by (body length, stream script, Content-Length class, operation sequence)",
+			"a history counts as one more non-trivial case when >=2 of its non-trivial requests were under way (probed, read, not closed) at the same time; " +
+			"distinct by (body length, stream script, Content-Length class, operation sequence), histories by their requests and interleaving",
 		Assumptions: []string{
 			"underlying streams never return (0,nil) more than 50 times in a row (bufio gives up with io.ErrNoProgress after 100 consecutive empty reads; streams beyond that documented limit are not judged)",
 			"underlying streams are sticky: once the terminal condition (EOF or the scripted error) was returned it is returned again by every later read, as net/http request bodies do; after Close they fail every read",
@@ -41,6 +44,8 @@ func init() {
 			"io.Copy from the body must deliver exactly the undelivered bytes and return nil for a stream that ends with io.EOF, the scripted error otherwise; after Close it must deliver nothing and must not end cleanly while bytes are undelivered",
 			"a Read that returns (0,nil) for a non-empty buffer is tolerated (io.Reader allows it) as long as the terminal condition arrives within the bounded drain",
 			"STRICTER THAN THE STATEMENT (the monitor's reading, signature suffix /stricter-than-statement): the underlying stream must not be closed before the caller closes the body. The statement only says that closing the body closes the underlying stream exactly once; a library that closes the stream itself when it meets the end and does not forward the later Close would still satisfy that clause. The check is kept because a stream closed under an open body fails the reads the caller still makes; triage such an alarm as a reading, not as a clause",
+			"the requests of a history are independent of each other (own stream, own request object): what the statement promises for a request is promised whatever other requests are under way or were handled before; their operations are interleaved on one goroutine, no real concurrency is used",
+			"the minimiser of a history runs two garbage collections before each trial, which empties every sync.Pool: state the library keeps between requests is then that of a fresh process, so that a minimised history replays alone; a history that raises its signature only on top of state left by earlier cases of the batch is recorded as found and says so (at most 600 trials per process, then histories are recorded as found)",
 			"one stream in 8 also implements io.WriterTo (as io.NopCloser over a *bytes.Reader does), handing out the same scripted bytes and terminal condition: io.Copy from a body that forwards WriteTo must deliver what Read would",
 		},
 		MinNontrivial: 2000,
@@ -88,6 +93,19 @@ type Case struct {
 	// method verbatim (may be empty or lower-case). TransferEncoding is copied to the request.
 	Method           *string  `json:"method,omitempty"`
 	TransferEncoding []string `json:"transfer_encoding,omitempty"`
+	// History: a history over several requests (BodyKind "history"; the other fields are unused).
+	History *History `json:"history,omitempty"`
+}
+
+// History is a set of single-request cases whose operations are interleaved step by step on one
+// goroutine. A request comes into being with its first step; its steps are its Ops in order and then
+// its fixed tail (drain, close, read after close, close again) as one more step. Order[k] names the
+// request that makes the k-th step of the history (entries for a request that has no step left are
+// ignored); once Order is used up the requests still under way are run to their end in index order.
+// Every request is judged against its own byte-queue model, exactly as if it were alone.
+type History struct {
+	Reqs  []Case `json:"reqs"`
+	Order []int  `json:"order"`
 }
 
 // ---- scripted stream ----
@@ -246,9 +264,55 @@ func kindClass(c *Case) string {
 	}
 }
 
+// runner is one request under way: the real request and its byte-queue model, stepped together one
+// operation at a time, so that the operations of several requests can be interleaved (histories).
+type runner struct {
+	step    func(op string) bool     // executes one operation; false: the case is malformed
+	tail    func()                   // the fixed tail: drain, close, read after close, close again
+	finish  func() ([]finding, info) // findings so far and the classes of the request
+	found   func() []finding         // findings so far
+	state   func() runnerState       // a view of the model for the history bookkeeping
+	body    []byte                   // every byte the stream can ever deliver
+	foreign func(got []byte) bool    // histories: do these bytes belong to another request of the history?
+}
+
+type runnerState struct {
+	peekPath   bool // a scripted stream with no length declared: HasBody has to look at the stream
+	empty      bool // the stream delivers no byte at all
+	probed     bool // HasBody was called at least once
+	closed     bool
+	nontrivial bool
+}
+
 // exec runs the case on the real code and the model. It has no side effects outside its return
-// values, so that the minimiser can call it freely.
-func exec(c *Case) (fs []finding, inf info) {
+// values (and whatever state the library keeps between requests), so that the minimiser can call it
+// freely.
+func exec(c *Case) ([]finding, info) {
+	if c.History != nil {
+		hfs, inf, _ := execHistory(c.History)
+		fs := make([]finding, len(hfs))
+		for i, f := range hfs {
+			fs[i] = finding{f.sig, f.detail}
+		}
+		return fs, inf
+	}
+	r := start(c)
+	for _, op := range c.Ops {
+		if !r.step(op) {
+			break
+		}
+	}
+	r.tail()
+	return r.finish()
+}
+
+// start builds the request of a single-request case and its model; nothing of the library has run
+// when it returns.
+func start(c *Case) *runner {
+	var fs []finding
+	var inf info
+	run := &runner{}
+	bad := false
 	kind := kindClass(c)
 	clc := clClass(c)
 	add := func(sig, format string, a ...interface{}) {
@@ -392,6 +456,14 @@ func exec(c *Case) (fs []finding, inf info) {
 			}
 		}
 		// bytes
+		if k > 0 && run.foreign != nil && (k > len(rest) || string(buf[:k]) != string(rest[:k])) && run.foreign(buf[:k]) {
+			// histories: the bytes are not the next bytes of this request but a stretch of the body of
+			// another request of the history
+			add("read-bytes-of-another-request/"+clc, "Read(%d) at body offset %d returned %q, a stretch of the body of ANOTHER request of the history; this request's next bytes are %q (%d undelivered); trace [%s]",
+				n, total-len(rest), clip(buf[:k]), clip(rest[:minInt(k, len(rest))]), len(rest), trace)
+			stop = true
+			return true
+		}
 		if k > len(rest) {
 			add("read-fabricated-bytes/"+clc, "Read(%d) returned %d byte(s) but only %d remain in the stream; got %q; trace [%s]", n, k, len(rest), clip(buf[:k]), trace)
 			stop = true
@@ -488,6 +560,8 @@ func exec(c *Case) (fs []finding, inf info) {
 		if string(got) != string(rest) {
 			sig := "copy-bytes-corrupt/" + clc
 			switch {
+			case len(got) > 0 && run.foreign != nil && !strings.HasPrefix(string(rest), string(got)) && run.foreign(got):
+				sig = "copy-bytes-of-another-request/" + clc
 			case len(got) > len(rest):
 				sig = "copy-fabricated-bytes/" + clc
 			case len(got) < len(rest) && string(got) == string(rest[:len(got)]):
@@ -569,9 +643,12 @@ func exec(c *Case) (fs []finding, inf info) {
 		checkCloses()
 	}
 
-	for _, op := range c.Ops {
+	run.step = func(op string) bool {
+		if bad {
+			return false
+		}
 		if stop {
-			break
+			return true
 		}
 		switch {
 		case op == "H":
@@ -586,18 +663,24 @@ func exec(c *Case) (fs []finding, inf info) {
 			n, err := strconv.Atoi(op[1:])
 			if err != nil || n < 0 || n > len(scratch) {
 				add("bad-case", "bad op %q", op)
-				return
+				bad = true
+				return false
 			}
 			doRead(n)
 			checkEarlyClose("Read")
 		default:
 			add("bad-case", "bad op %q", op)
-			return
+			bad = true
+			return false
 		}
+		return true
 	}
 
 	// fixed tail: drain, close, read after close, close again.
-	if !stop {
+	run.tail = func() {
+		if bad || stop {
+			return
+		}
 		fmt.Fprintf(trace, " |")
 		if !closed && req.Body != nil {
 			zeros := 0
@@ -627,21 +710,211 @@ func exec(c *Case) (fs []finding, inf info) {
 		}
 	}
 
+	finished := false
+	run.finish = func() ([]finding, info) {
+		if bad || finished {
+			return fs, inf
+		}
+		finished = true
+		if st != nil {
+			if st.readsAfterClose > 0 {
+				cls("underlying-read-after-close")
+			}
+			if wt != nil && wt.writeTos > 0 {
+				cls("underlying-writeto-called")
+			}
+		}
+		if !declared {
+			cls("path-peek/" + kind)
+		} else {
+			cls("path-declared/" + kind)
+		}
+		inf.nontrivial = !declared && st != nil && total > 0 && sawReadAfterHas
+		return fs, inf
+	}
+	run.found = func() []finding { return fs }
+	run.state = func() runnerState {
+		return runnerState{
+			peekPath:   !declared && st != nil,
+			empty:      total == 0,
+			probed:     sawHas,
+			closed:     closed,
+			nontrivial: !declared && st != nil && total > 0 && sawReadAfterHas,
+		}
+	}
 	if st != nil {
-		if st.readsAfterClose > 0 {
-			cls("underlying-read-after-close")
+		run.body = st.data
+	}
+	return run
+}
+
+// hfinding is a finding made on one request of a history.
+type hfinding struct {
+	finding
+	base string // the signature the finding has on a single request
+	req  int
+}
+
+type histInfo struct {
+	nontrivial bool   // >= 2 non-trivial requests were under way at the same time
+	reqNT      []bool // the requests that are non-trivial by the single-request rule
+	bad        bool
+}
+
+const (
+	sufOverlap = "/requests-overlapping"
+	sufInSeq   = "/requests-in-sequence"
+)
+
+// execHistory steps the requests of a history in the given interleaving. The signature of a finding
+// is the single-request signature followed by /requests-overlapping when another request of the history
+// was under way (begun and not yet through its tail) at some moment of the life of the request the
+// finding is about, /requests-in-sequence otherwise.
+func execHistory(h *History) (out []hfinding, inf info, hi histInfo) {
+	n := len(h.Reqs)
+	if n == 0 || n > 64 {
+		hi.bad = true
+		return []hfinding{{finding: finding{"bad-case", "a history needs 1..64 requests"}, base: "bad-case"}}, inf, hi
+	}
+	const (
+		fresh = iota
+		alive
+		done
+	)
+	rs := make([]*runner, n)
+	state := make([]int, n)
+	next := make([]int, n)
+	overlapped := make([]bool, n)
+	maxAlive, maxAlivePeek, maxAliveNT := 0, 0, 0
+	emptyProbedClosed := 0 // requests through their tail that had no declared length, an empty stream and were probed
+	afterEmpty := false
+	cls := func(k string) { inf.classes = append(inf.classes, k) }
+
+	census := func() {
+		a, p, nt := 0, 0, 0
+		for j := range rs {
+			if state[j] != alive {
+				continue
+			}
+			a++
+			s := rs[j].state()
+			if s.peekPath && s.probed && !s.closed {
+				p++
+			}
+			if s.nontrivial && !s.closed {
+				nt++
+			}
 		}
-		if wt != nil && wt.writeTos > 0 {
-			cls("underlying-writeto-called")
+		if a > maxAlive {
+			maxAlive = a
+		}
+		if p > maxAlivePeek {
+			maxAlivePeek = p
+		}
+		if nt > maxAliveNT {
+			maxAliveNT = nt
+		}
+		if p >= 2 && emptyProbedClosed > 0 {
+			afterEmpty = true
 		}
 	}
-	if !declared {
-		cls("path-peek/" + kind)
-	} else {
-		cls("path-declared/" + kind)
+
+	stepReq := func(i int) {
+		if state[i] == done {
+			return
+		}
+		if state[i] == fresh {
+			i := i
+			rs[i] = start(&h.Reqs[i])
+			rs[i].foreign = func(got []byte) bool {
+				for j, o := range rs {
+					if j == i || o == nil || len(o.body) == 0 {
+						continue
+					}
+					if (len(got) >= 4 || len(got) == len(o.body)) && strings.Contains(string(o.body), string(got)) {
+						return true
+					}
+				}
+				return false
+			}
+			state[i] = alive
+			for j := range rs {
+				if j != i && state[j] == alive {
+					overlapped[i], overlapped[j] = true, true
+				}
+			}
+		}
+		r := rs[i]
+		before := len(r.found())
+		if next[i] < len(h.Reqs[i].Ops) {
+			if !r.step(h.Reqs[i].Ops[next[i]]) {
+				hi.bad = true
+			}
+			next[i]++
+			census()
+		} else {
+			r.tail()
+			state[i] = done
+			if s := r.state(); s.peekPath && s.empty && s.probed {
+				emptyProbedClosed++
+			}
+		}
+		if fs := r.found(); len(fs) > before {
+			suf := sufInSeq
+			if overlapped[i] {
+				suf = sufOverlap
+			}
+			for _, f := range fs[before:] {
+				sig := f.sig + suf
+				if f.sig == "bad-case" {
+					sig = f.sig
+				}
+				out = append(out, hfinding{finding: finding{sig, fmt.Sprintf("request %d of a history of %d: %s", i, n, f.detail)}, base: f.sig, req: i})
+			}
+		}
 	}
-	inf.nontrivial = !declared && st != nil && total > 0 && sawReadAfterHas
-	return fs, inf
+
+	for _, i := range h.Order {
+		if i < 0 || i >= n {
+			hi.bad = true
+			return append(out, hfinding{finding: finding{"bad-case", fmt.Sprintf("order entry %d out of range", i)}, base: "bad-case"}), inf, hi
+		}
+		if hi.bad {
+			return out, inf, hi
+		}
+		stepReq(i)
+	}
+	for i := 0; i < n && !hi.bad; i++ {
+		for state[i] != done && !hi.bad {
+			stepReq(i)
+		}
+	}
+	if hi.bad {
+		return out, inf, hi
+	}
+	for i := range rs {
+		_, ri := rs[i].finish()
+		inf.classes = append(inf.classes, ri.classes...)
+		hi.reqNT = append(hi.reqNT, ri.nontrivial)
+	}
+	cls("history/requests-" + strconv.Itoa(minInt(n, 8)))
+	cls("history/max-requests-under-way-" + strconv.Itoa(minInt(maxAlive, 4)))
+	cls("history/max-probed-open-peek-requests-under-way-" + strconv.Itoa(minInt(maxAlivePeek, 4)))
+	if afterEmpty {
+		cls("history/two-probed-peek-requests-under-way-after-an-empty-one-was-probed-and-closed")
+	}
+	hi.nontrivial = maxAliveNT >= 2
+	inf.nontrivial = hi.nontrivial
+	return out, inf, hi
+}
+
+// clearPools brings whatever the library keeps in sync.Pools between requests to the state of a fresh
+// process (two collections empty every sync.Pool: the first moves the items to the victim cache, the
+// second drops them). Used before each trial of the minimiser of a history, so that a minimised
+// history does not lean on what earlier cases of the run left behind and replays alone.
+func clearPools() {
+	goruntime.GC()
+	goruntime.GC()
 }
 
 // plainWriter is an io.Writer and nothing else (no ReadFrom), so that io.Copy's choice depends on
@@ -651,6 +924,13 @@ type plainWriter struct{ b []byte }
 func (w *plainWriter) Write(p []byte) (int, error) {
 	w.b = append(w.b, p...)
 	return len(p), nil
+}
+
+func minInt(a, b int) int {
+	if a < b {
+		return a
+	}
+	return b
 }
 
 func wantCopyErr(term error) string {
@@ -682,6 +962,9 @@ func clipS(s string) string {
 }
 
 func hasSig(c *Case, sig string) bool {
+	if c.History != nil {
+		clearPools()
+	}
 	fs, _ := exec(c)
 	for _, f := range fs {
 		if f.sig == sig {
@@ -705,7 +988,121 @@ func clone(c *Case) *Case {
 		d.Method = &mth
 	}
 	d.TransferEncoding = append([]string(nil), c.TransferEncoding...)
+	if c.History != nil {
+		h := &History{Order: append([]int(nil), c.History.Order...)}
+		for i := range c.History.Reqs {
+			h.Reqs = append(h.Reqs, *clone(&c.History.Reqs[i]))
+		}
+		d.History = h
+	}
 	return &d
+}
+
+// dropReq removes request i of a history and renumbers the interleaving.
+func dropReq(h *History, i int) {
+	h.Reqs = append(h.Reqs[:i:i], h.Reqs[i+1:]...)
+	var o []int
+	for _, j := range h.Order {
+		switch {
+		case j < i:
+			o = append(o, j)
+		case j > i:
+			o = append(o, j-1)
+		}
+	}
+	h.Order = o
+}
+
+// dropLastStep removes the last entry of the interleaving that names request i (after one of its
+// operations was removed, so that the other steps keep their places).
+func dropLastStep(h *History, i int) {
+	for k := len(h.Order) - 1; k >= 0; k-- {
+		if h.Order[k] == i {
+			h.Order = append(h.Order[:k:k], h.Order[k+1:]...)
+			return
+		}
+	}
+}
+
+// Every trial of the history minimiser costs two garbage collections; a process spends at most
+// maxHistTrials of them (a tree that breaks the property in many ways must not run into the watchdog).
+const maxHistTrials = 600
+
+var histTrials int
+
+// minimiseHistory greedily shrinks a violating history while the same signature keeps firing; every
+// trial starts from emptied sync.Pools (see clearPools). ok is false when the history as found does not
+// raise the signature from that state: it leans on what earlier cases of the run left in the library.
+func minimiseHistory(c *Case, sig string) (res *Case, ok bool) {
+	cur := clone(c)
+	histTrials++
+	if !hasSig(cur, sig) {
+		return cur, false
+	}
+	try := func(mut func(d *Case)) bool {
+		if histTrials >= maxHistTrials {
+			return false // the budget of the process is used up: what was reached so far still reproduces
+		}
+		histTrials++
+		d := clone(cur)
+		mut(d)
+		if hasSig(d, sig) {
+			cur = d
+			return true
+		}
+		return false
+	}
+	for i := len(cur.History.Reqs) - 1; i >= 0; i-- {
+		i := i
+		if len(cur.History.Reqs) > 1 && i < len(cur.History.Reqs) {
+			try(func(d *Case) { dropReq(d.History, i) })
+		}
+	}
+	for i := range cur.History.Reqs {
+		i := i
+		for k := len(cur.History.Reqs[i].Ops) - 1; k >= 0; k-- {
+			k := k
+			try(func(d *Case) {
+				q := &d.History.Reqs[i]
+				q.Ops = append(q.Ops[:k:k], q.Ops[k+1:]...)
+				dropLastStep(d.History, i)
+			})
+		}
+	}
+	// trailing entries of the interleaving (the requests are run to their end anyway)
+	for len(cur.History.Order) > 0 {
+		if !try(func(d *Case) { d.History.Order = d.History.Order[:len(d.History.Order)-1] }) {
+			break
+		}
+	}
+	for i := range cur.History.Reqs {
+		i := i
+		q := func(d *Case) *Case { return &d.History.Reqs[i] }
+		try(func(d *Case) { q(d).Method = nil })
+		try(func(d *Case) { q(d).TransferEncoding = nil })
+		if cur.History.Reqs[i].BodyKind == "stream-wt" {
+			try(func(d *Case) { q(d).BodyKind = "stream" })
+		}
+		try(func(d *Case) { q(d).Stream.Chunks = nil })
+		try(func(d *Case) { q(d).Stream.Tail = 0 })
+		try(func(d *Case) { q(d).Stream.CloseErr = false })
+		try(func(d *Case) { q(d).Stream.TermWithData = false })
+		try(func(d *Case) { q(d).Stream.ErrAt = -1 })
+		for _, l := range []int{0, 1, 2, 3, 8, 64, 4095, 4096, 4097, 8193} {
+			l := l
+			if l < len(cur.History.Reqs[i].Body) {
+				if try(func(d *Case) {
+					q(d).Body = q(d).Body[:l]
+					if q(d).Stream.ErrAt > l {
+						q(d).Stream.ErrAt = l
+					}
+				}) {
+					break
+				}
+			}
+		}
+	}
+	return cur, true
 }
 
 // minimise greedily shrinks a violating case while the same signature keeps firing.
@@ -764,6 +1161,14 @@ func minimise(c *Case, sig string) *Case {
 
 func fingerprint(c *Case) string {
 	h := fnv.New64a()
+	if c.History != nil {
+		fmt.Fprint(h, "history|")
+		for i := range c.History.Reqs {
+			fmt.Fprint(h, fingerprint(&c.History.Reqs[i]), "|")
+		}
+		fmt.Fprint(h, c.History.Order)
+		return strconv.FormatUint(h.Sum64(), 16)
+	}
 	if c.BodyKind == "stream-wt" {
 		fmt.Fprint(h, "wt|")
 	}
@@ -778,6 +1183,10 @@ func runCase(m *mon.M, c *Case) {
 		runBatch(m, c.Regen)
 		return
 	}
+	if c.History != nil {
+		runHistory(m, c)
+		return
+	}
 	fs, inf := exec(c)
 	m.Eval(1)
 	for _, k := range inf.classes {
@@ -786,6 +1195,84 @@ func runCase(m *mon.M, c *Case) {
 	if inf.nontrivial {
 		m.NT(fingerprint(c))
 	}
+	report(m, c, fs)
+	if m.WantSample() {
+		s := sampleOf(c)
+		m.Sample(map[string]interface{}{"case": s, "nontrivial": inf.nontrivial, "findings": len(fs)})
+	}
+}
+
+// sampleOf trims a case for the evidence file.
+func sampleOf(c *Case) *Case {
+	s := clone(c)
+	if len(s.Body) > 40 {
+		s.Body = mon.Q(string(s.Body[:40]) + fmt.Sprintf("...(%d bytes in all)", len(c.Body)))
+	}
+	if len(s.Stream.Chunks) > 30 {
+		s.Stream.Chunks = s.Stream.Chunks[:30]
+	}
+	if s.History != nil {
+		for i := range s.History.Reqs {
+			s.History.Reqs[i] = *sampleOf(&s.History.Reqs[i])
+		}
+	}
+	return s
+}
+
+// runHistory executes a history. A finding that the request raises on its own as well (same
+// signature, the request run alone) is reported as a finding of that single request: the history adds
+// nothing to it.
+func runHistory(m *mon.M, c *Case) {
+	hfs, inf, hi := execHistory(c.History)
+	m.Eval(len(c.History.Reqs))
+	for _, k := range inf.classes {
+		m.Class(k)
+	}
+	if hi.nontrivial {
+		m.NT(fingerprint(c))
+	}
+	for i, nt := range hi.reqNT {
+		if nt {
+			m.NT(fingerprint(&c.History.Reqs[i]))
+		}
+	}
+	var fs []finding
+	alone := map[int][]finding{}
+	reported := map[int]bool{}
+	for _, f := range hfs {
+		if f.base == "bad-case" {
+			fs = append(fs, f.finding)
+			continue
+		}
+		q := &c.History.Reqs[f.req]
+		afs, ok := alone[f.req]
+		if !ok {
+			afs, _ = exec(q)
+			alone[f.req] = afs
+		}
+		single := false
+		for _, af := range afs {
+			if af.sig == f.base {
+				single = true
+			}
+		}
+		if single {
+			if !reported[f.req] {
+				reported[f.req] = true
+				report(m, q, afs)
+			}
+			continue
+		}
+		fs = append(fs, f.finding)
+	}
+	report(m, c, fs)
+	if m.WantSample() {
+		m.Sample(map[string]interface{}{"case": sampleOf(c), "nontrivial": hi.nontrivial, "findings": len(hfs)})
+	}
+}
+
+// report raises the findings of a case, the first few of each signature minimised.
+func report(m *mon.M, c *Case, fs []finding) {
 	seen := map[string]bool{}
 	for _, f := range fs {
 		if seen[f.sig] {
@@ -794,8 +1281,24 @@ func runCase(m *mon.M, c *Case) {
 		seen[f.sig] = true
 		minimised[f.sig]++
 		if minimised[f.sig] <= 5 {
-			mc := minimise(c, f.sig)
+			var mc *Case
+			if c.History != nil {
+				var ok bool
+				if histTrials >= maxHistTrials {
+					m.Violate(f.sig, f.detail+" [history recorded as found: the minimiser's budget of this process is used up]", clone(c))
+					continue
+				}
+				if mc, ok = minimiseHistory(c, f.sig); !ok {
+					m.Violate(f.sig, f.detail+" [NOT reproduced when the history was run again from emptied sync.Pools: it leans on state the library kept from earlier cases of the batch; the history is recorded as found]", mc)
+					continue
+				}
+			} else {
+				mc = minimise(c, f.sig)
+			}
 			detail := f.detail
+			if mc.History != nil {
+				clearPools()
+			}
 			if mfs, _ := exec(mc); len(mfs) > 0 {
 				for _, mf := range mfs {
 					if mf.sig == f.sig {
@@ -808,16 +1311,6 @@ func runCase(m *mon.M, c *Case) {
 		} else {
 			m.Violate(f.sig, f.detail, nil) // counted; the harness keeps only the first few witnesses per sig
 		}
-	}
-	if m.WantSample() {
-		s := clone(c)
-		if len(s.Body) > 40 {
-			s.Body = mon.Q(string(s.Body[:40]) + fmt.Sprintf("...(%d bytes in all)", len(c.Body)))
-		}
-		if len(s.Stream.Chunks) > 30 {
-			s.Stream.Chunks = s.Stream.Chunks[:30]
-		}
-		m.Sample(map[string]interface{}{"case": s, "nontrivial": inf.nontrivial, "findings": len(fs)})
 	}
 }
 
@@ -993,6 +1486,103 @@ func genCase(r *rand.Rand) *Case {
 	return c
 }
 
+// genHistory: 0..3 earlier requests, each run to its end (probed, read, closed) before the next one
+// begins - half of them without declared length on a stream that yields nothing (empty, or failing
+// before the first byte), the others as genCase makes them -, then 2..3 requests whose steps are
+// interleaved at random (three in four of them without declared length on a non-empty stream, so that
+// the peeking path is under way on several requests at once). One history in four interleaves all of
+// its requests.
+func genHistory(r *rand.Rand) *Case {
+	stream := func() *Case {
+		for {
+			if c := genCase(r); c.BodyKind == "stream" || c.BodyKind == "stream-wt" {
+				return c
+			}
+		}
+	}
+	noLength := func(c *Case) {
+		c.CLHeader = nil
+		c.ContentLength = 0
+		if r.Intn(3) == 0 {
+			c.ContentLength = -1
+		}
+	}
+	probeFirst := func(c *Case) {
+		if r.Intn(4) > 0 {
+			c.Ops[0] = "H"
+		}
+	}
+	h := &History{}
+	nPre, nLive := r.Intn(4), 2+r.Intn(2)
+	for i := 0; i < nPre; i++ {
+		c := genCase(r)
+		if r.Intn(2) == 0 {
+			c = stream()
+			noLength(c)
+			if r.Intn(2) == 0 {
+				c.Body = ""
+			} else {
+				c.Stream.ErrAt = 0
+			}
+			probeFirst(c)
+		}
+		h.Reqs = append(h.Reqs, *c)
+	}
+	for i := 0; i < nLive; i++ {
+		c := genCase(r)
+		if r.Intn(4) > 0 {
+			c = stream()
+			noLength(c)
+			if len(c.Body) == 0 {
+				c.Body = mon.Q(genBody(r, 1+r.Intn(64)))
+			}
+			if c.Stream.ErrAt == 0 {
+				c.Stream.ErrAt = -1
+			}
+			probeFirst(c)
+		}
+		h.Reqs = append(h.Reqs, *c)
+	}
+	// interleaving
+	left := make([]int, len(h.Reqs))
+	for i := range h.Reqs {
+		left[i] = len(h.Reqs[i].Ops) + 1
+	}
+	first := nPre
+	if r.Intn(4) == 0 {
+		first = 0
+	}
+	for i := 0; i < first; i++ {
+		for ; left[i] > 0; left[i]-- {
+			h.Order = append(h.Order, i)
+		}
+	}
+	last := -1
+	for {
+		var open []int
+		for i := first; i < len(left); i++ {
+			if left[i] > 0 {
+				open = append(open, i)
+			}
+		}
+		if len(open) == 0 {
+			break
+		}
+		i := open[r.Intn(len(open))]
+		if last >= 0 && left[last] > 0 && r.Intn(3) == 0 {
+			i = last // a short run of steps of the same request
+		}
+		h.Order = append(h.Order, i)
+		left[i]--
+		last = i
+	}
+	return &Case{BodyKind: "history", Stream: Script{ErrAt: -1}, History: h}
+}
+
+// historyOneIn: one draw in historyOneIn of a batch is a history (4.5 requests on average; a batch
+// counts requests, so the cost of a batch stays what it was)
+const historyOneIn = 12
+
 var zeroSpellings = []string{"00", " 0", "000"}
 var methods = []string{"GET", "HEAD", "DELETE", "OPTIONS", "PUT", "PATCH", "TRACE", "post", "get", "Delete", ""}
 
@@ -1010,8 +1600,15 @@ func runBatch(m *mon.M, g *Regen) {
 	if n <= 0 || n > batchSize {
 		n = batchSize
 	}
-	for i := 0; i < n; i++ {
+	for i := 0; i < n; {
+		if r.Intn(historyOneIn) == 0 {
+			c := genHistory(r)
+			runCase(m, c)
+			i += len(c.History.Reqs)
+			continue
+		}
 		runCase(m, genCase(r))
+		i++
 	}
 }
 
